@@ -670,7 +670,7 @@ def main(tier):
                         "mixed exact/inexact cases restricted to operands exactly convertible to double; NaN "
                         "comparisons, inexact variadic folds and mixed min/max are not pinned and not generated"]
     if rep.coverage["evaluations"] < 1000:
-        rep.inconclusive_note("fewer than 1000 expressions evaluated")
+        rep.inconclusive_note("fewer than 1000 expressions evaluated", floor=True)
     return rep.finish()
 
 
